@@ -521,3 +521,7 @@ _add(
         "C36.4",
     ),
 )
+_add(
+    "C27",
+    m("export-synonym-not-added-in-validate", T, "        if \"cache\" in self._export_options:\n            self._export_options.add(\"cache_scope\")\n", "", "C27.6"),
+)
